@@ -4,6 +4,7 @@ package main
 // C17 (Response), C20 (custom functions).
 
 import (
+	"math"
 	"time"
 	"fmt"
 	"strconv"
@@ -146,6 +147,23 @@ func casesC14(g *Gen) []*Case {
 	{
 		bad := gvMap("b", &GV{K: "O", Other: "chan"}, "a", &GV{K: "O", Other: "func"}, "c", &GV{K: "O", Other: "complex"}, "loop", gvInt(1))
 		addRepeated("several_bad_data_values", newTree(), nil, opEvs("x", bad), "EvaluateString with several unsupported data values")
+		// several unsupported values of different types inside one nested map (and list, and struct): the same error every time
+		nestedBad := gvMap("ok", gvInt(1), "m", gvMap("a", &GV{K: "O", Other: "chan"}, "b", &GV{K: "O", Other: "func"}, "c", &GV{K: "O", Other: "complex"}, "d", &GV{K: "O", Other: "array"}))
+		addRepeated("several_bad_data_values", newTree(), nil, opEvs("x", nestedBad), "EvaluateString with several unsupported values inside a nested map")
+		nestedBad2 := gvMap("l", gvList(gvMap("p", &GV{K: "O", Other: "func"}, "q", &GV{K: "O", Other: "chan"}), gvMap("r", &GV{K: "O", Other: "complex"}, "s", &GV{K: "O", Other: "intkeymap"})))
+		addRepeated("several_bad_data_values", newTree(), nil, opEvs("x", nestedBad2), "EvaluateString with several unsupported values inside maps inside a list")
+		// a render that fails inside a loop header, then nested loops: the same output every time
+		addRepeated("nested_loops_after_a_failed_loop", newTree(), []string{opEvs("@for(i = 0; i < 3; i.str())x@end", nil), opEvs("@each(v in [1, 2])@for(i = 0; i < 2; nil)@end@end", nil)},
+			opEvs("@for(i = 0; i < 2; i++)[@for(j = 0; j < 2; j++){{ i }}{{ j }}@end]@end|@each(a in [1, 2])(@each(b in [3, 4]){{ a }}{{ b }}@end)@end", nil), "a failing @for, then nested loops")
+		for _, c := range cs[len(cs)-copies:] {
+			same := c.Oracle
+			c.Oracle = func(c *Case, impl string) string {
+				if why := same(c, impl); why != "" {
+					return why
+				}
+				return wantOK("[0001][1011]|(1314)(2324)")(results(impl)[2])
+			}
+		}
 		for _, kind := range []string{"intkeymap", "boolkeymap", "mixedkeymap", "floatkeymap"} {
 			addRepeated("maps_with_other_keys", newTree(), nil, opEvs("{{ m }}|@dump(m)", gvMap("m", &GV{K: "O", Other: kind})), "printing a "+kind)
 		}
@@ -269,6 +287,7 @@ func c16Tree() *Tree {
 	t.files["tpl/ternarydata.tw"] = "{{ true ? (false ? 1 : who) : 2 }}"
 	// a file of the same relative path below the template directory: EvaluateFile never looks there
 	t.files["tpl/files/f.tw"] = "not this one {{ who }}"
+	t.files["tpl/dotname.tw"] = "{{ user.name }}|@each(q in [1, 2]){{ user.name }}@end"
 	return t
 }
 
@@ -281,6 +300,10 @@ func c16Ops() []string {
 		opResp("home", d1), opResp("bad", d1), opResp("missing", nil), opResp("read", nil), opResp("loops", nil),
 		opEvs("{{ total = 1 }}{{ total }}", nil), opEvs("[{{ total }}]", nil), opEvs("{{ who }}!", d1), opEvs("{{ 1 + }}", nil), opEvs("@each(x in xs){{ x }}@if(x == 2){{ nosuch }}@end@end", d1),
 		opEvf("files/f.tw", d1), opEvf("files/none.tw", nil), opEvfRel("files/f.tw", d2), opEvfRel("./files/../files/f.tw", d1),
+		// one access path, values of different shapes from call to call; struct types that share a name
+		opStr("dotname", gvMap("user", &GV{K: "T", Keys: []string{"Name"}, Export: []bool{true}, Elems: []*GV{gvStr("S")}})),
+		opStr("dotname", gvMap("user", gvMap("name", gvStr("lower"), "Name", gvStr("UPPER")))),
+		opEvs("{{ r.a }}-{{ r.b }}", gvMap("r", gvNamed(0))), opEvs("{{ r.b }}-{{ r.c }}-{{ r.a }}", gvMap("r", gvNamed(1))), opEvs("{{ r.name }}-{{ r.tags[0] }}", gvMap("r", gvNamed(2))),
 		opStr("elseifdata", d1), opStr("elseifdata", d2), opStr("slotdata", d1), opStr("slotdata", d2), opStr("ternarydata", d1), opStr("ternarydata", d2),
 	}
 }
@@ -743,6 +766,47 @@ func casesC20(g *Gen) []*Case {
 		c.Oracle = expectResults(map[int]func(string) string{1: wantOK("a, ***, c|a, ***, c|a, bad, c|3|1, 2")})
 		cs = append(cs, c)
 	}
+	// a function that edits the container it receives: the next call on the same variable gets the variable's value again
+	{
+		d := gvMap("xs", gvList(gvStr("a"), gvStr("bad"), gvStr("c")))
+		ops := []string{opReg("arr", "censor", 2), opReg("arr", "tagged", 3),
+			opEvs(`{{ xs.censor("bad") }}|{{ xs.censor("zzz") }}|{{ xs.censor("a") }}|{{ xs }}`, d),
+			opEvs(`@each(i in [1, 2]){{ xs.censor("c") }};@end{{ xs.tagged().len() }}{{ xs.tagged().len() }}`, d),
+			opEvs(`{{ ys = ["p", "q"] }}{{ ys.censor("p") }}|{{ ys.censor("q") }}|{{ ys.tagged(1).len() }}|{{ ys.tagged(1).len() }}|{{ ys }}`, nil),
+			opEvs(`@each(row in [["a", "b"], ["b", "a"]]){{ row.censor("a") }}/{{ row.censor("b") }};@end`, nil)}
+		ops = append(ops, opReg("str", "take", 5),
+			opEvs(`{{ "s".take(xs) }}|{{ "s".take(xs) }}|{{ xs }}|{{ "s".take(o) }}|{{ "s".take(o) }}|{{ o }}`, gvMap("xs", gvList(gvStr("a"), gvStr("bad"), gvStr("c")), "o", gvMap("k", gvInt(1), "l", gvInt(2)))),
+			opEvs(`{{ ys = [3, 1, 2] }}@each(i in [1, 2, 3]){{ "s".take(ys) }},@end{{ ys }}|{{ "s".take([ys, ys]) }}{{ "s".take([ys]) }}|{{ zs = {p: [1]} }}{{ "s".take(zs) }}{{ "s".take(zs) }}{{ zs.p }}`, nil),
+			opEvs(`@each(row in [[5, 6], [7]]){{ "s".take(row) }}{{ "s".take(row) }};@end{{ "s".take(1) }}{{ "s".take([]) }}`, nil))
+		c := histCase("function_edits_its_argument", newTree(), ops, "Register(arr censor: in place; arr tagged: extends); repeated calls on one variable")
+		c.Oracle = expectResults(map[int]func(string) string{2: wantOK("a, ***, c|a, bad, c|***, bad, c|a, bad, c"), 3: wantOK("a, bad, ***;a, bad, ***;44"),
+			4: wantOK("***, q|p, ***|4|4|p, q"), 5: wantOK("***, b/a, ***;b, ***/***, a;"),
+			7: wantOK("s:a|s:a|a, bad, c|2|2|{k: 1, l: 2}"), 8: wantOK("i:3,i:3,i:3,3, 1, 2|[i:3,i:1,i:2,][i:3,i:1,i:2,]|111"), 9: wantOK("i:5i:5;i:7i:7;nonenone")})
+		cs = append(cs, c)
+	}
+	// registered functions are callable from every template that is rendered, the configured error page included
+	{
+		t := newTree()
+		t.files["tpl/err.tw"] = `E {{ "x".echo(1) }} {{ 2.cnt() }}`
+		t.files["tpl/bad.tw"] = `{{ nosuchname }}`
+		t.files["tpl/ok.tw"] = `{{ "y".echo() }}`
+		ops := []string{opReg("str", "echo", 0), opReg("int", "cnt", 0), opNew("tpl", ".tw", "err", false), opResp("bad", nil), opStr("err", nil), opResp("ok", nil), opResp("nosuchpage", nil)}
+		c := histCase("functions_in_the_error_page", t, ops, "Register; NewTemplate(errorPage=err); Response of a failing page")
+		c.Oracle = func(c *Case, impl string) string {
+			rs := results(impl)
+			if len(rs) < 7 {
+				return "missing answers"
+			}
+			for _, i := range []int{3, 6} {
+				body, errS, ok := parseResp(rs[i])
+				if !ok || errS == "nil" || body != "E x|i:1, 2" {
+					return fmt.Sprintf("operation %d: the custom error page must be written with its function calls evaluated, got %s", i, clip(rs[i], 200))
+				}
+			}
+			return wantOK("E x|i:1, 2")(rs[4])
+		}
+		cs = append(cs, c)
+	}
 	// a nil function value takes the name like any other registration (and is not callable)
 	for _, ty := range c20Types {
 		rv := recvs[ty]
@@ -848,6 +912,10 @@ func casesC15(g *Gen) []*Case {
 		opStr("lits", d1), opStr("lits", d2), opStr("branchy", d1), opStr("branchy", d2), opStr("lits", d1), opStr("branchy", d1),
 		// very deep pages that stay deep for most of their running time
 		opStr("deep", d1), opStr("deep", d2), opStr("deepexpr", d1),
+		// numbers of unusual magnitude, different ones in every call
+		opStr("floats", gvMap("fs", gvList(gvFloat(1e21), gvFloat(2.5e-22), gvFloat(-3.75e30), gvFloat(1.0/3), gvFloat(math.Inf(1))))),
+		opStr("floats", gvMap("fs", gvList(gvFloat(3e25), gvFloat(7.1e-30), gvFloat(9.5e22), gvFloat(2.0/3), gvFloat(math.Inf(-1))))),
+		opStr("floats", gvMap("fs", gvList(gvFloat(1.7976931348623157e308), gvFloat(5e-324), gvFloat(-1e21), gvFloat(123456.789), gvFloat(math.MaxInt64)))),
 	}
 	n := g.scale(24, 400)
 	for i := 0; i < n; i++ {
@@ -858,6 +926,7 @@ func casesC15(g *Gen) []*Case {
 		t.files["tpl/num.tw"] = `@use("~l")@insert("b")@for(i = 0; i < 150; i++)@end<b>{{ n }}</b>{{ n / 2 }} @each(v in ns){{ v }},@end@end`
 		t.files["tpl/components/lit.tw"] = `[{{ t }}|@slot]`
 		t.files["tpl/deep.tw"] = strings.Repeat("@if(true)@each(e in [1])", 350) + "{{ who }}@for(i = 0; i < 400; i++)@if(i % 100 == 0){{ i }}@end@end" + strings.Repeat("@end@end", 350)
+		t.files["tpl/floats.tw"] = `@for(r = 0; r < 40; r++)@each(f in fs){{ f }} {{ f.str() }} {{ [f] }};@end@end`
 		t.files["tpl/deepexpr.tw"] = "{{ " + strings.Repeat("[", 600) + "who" + strings.Repeat("]", 600) + " }}{{ " + strings.Repeat("-(", 500) + "1" + strings.Repeat(")", 500) + " }}"
 		t.files["tpl/lits.tw"] = `@use("~l")@insert("b"){{ "<b>&</b> 'q' \"dq\" <i>long literal text with & and < and > repeated & again</i>" }}` +
 			`@each(x in xs){{ "<" + "&'" }}@component("~lit", {t: "<t>&\"'"})@slot{{ "s<&>'" }}@end@end@end{{ "<raw>&".raw() }}{{ true ? "<y>'" : "<n>" }}{{ {k: "<v>&"}.k }}{{ ["<e>'"][0] }}@end`
@@ -869,7 +938,7 @@ func casesC15(g *Gen) []*Case {
 		for j := 0; j < k; j++ {
 			work = append(work, pool[g.n(len(pool))])
 		}
-		np := len(pool) - 3
+		np := len(pool) - 6
 		switch i % 6 {
 		case 1: // the same page with data that differ in the numeric type only
 			work = []string{pool[np-10], pool[np-9]}
@@ -879,6 +948,8 @@ func casesC15(g *Gen) []*Case {
 			work = append(work, pool[np-10], pool[np-4], pool[np-9], pool[np-6])
 		case 4: // many deep renders at the same moment
 			work = []string{pool[np], pool[np+1], pool[np+2]}
+		case 0: // numbers of unusual magnitude printed at the same moment
+			work = []string{pool[np+3], pool[np+4], pool[np+5]}
 		}
 		G := []int{2, 4, 8, 16}[i%4]
 		procs := []int{1, 2, 16}[i%3]
